@@ -2085,3 +2085,22 @@ V("C44-orphan-mark-never-removed","C44",MMD,"""	haveObject := bytes.Equal(k, pre
 	}
 
 	if haveObject {""",rule="C44.R7")
+ICC="pkg/innerring/processors/container/common.go"
+V("C37-v1-data-signature-not-checked","C37",ICC,"""		if !tok.VerifySessionDataSignature(v.signedData, v.invocScript) {
+			return errors.New("invalid signature calculated with session key")
+		}
+""","",rule="C37.R6")
+V("C37-v2-request-bound-to-subject-repaired","C37",ICC,"""	currentTime := cp.chainTime.Now().Round(time.Second)
+	if !tok.ValidAt(currentTime) {""","""	signer, err := signerOfVerificationScript(v.verifScript)
+	if err != nil {
+		return err
+	}
+	if ok, err := tok.AssertAuthority(signer, cp.resolver); err != nil || !ok {
+		return errors.New("request signer is not a subject of the token")
+	}
+	if err := icrypto.AuthenticateContainerRequest(signer, v.invocScript, v.verifScript, v.signedData, cp.cnrClient.Morph()); err != nil {
+		return fmt.Errorf("authenticate request of the session subject: %w", err)
+	}
+
+	currentTime := cp.chainTime.Now().Round(time.Second)
+	if !tok.ValidAt(currentTime) {""",expect="silent",more=[{"file":ICC,"old":"// verifySessionV2 validates V2 session token for container operations.","new":"func signerOfVerificationScript(script []byte) (user.ID, error) {\n	pub, err := keys.NewPublicKeyFromBytes(script, elliptic.P256())\n	if err != nil {\n		return user.NewFromScriptHash(hash.Hash160(script)), nil\n	}\n	return user.NewFromECDSAPublicKey(ecdsa.PublicKey(*pub)), nil\n}\n\n// verifySessionV2 validates V2 session token for container operations."},{"file":ICC,"old":"import (\n","new":"import (\n	\"crypto/ecdsa\"\n	\"crypto/elliptic\"\n\n	\"github.com/nspcc-dev/neo-go/pkg/crypto/hash\"\n	\"github.com/nspcc-dev/neo-go/pkg/crypto/keys\"\n"}])
